@@ -77,6 +77,10 @@ impl Tags {
     ) -> Result<&'a Tags, Error> {
         let numtags = parts.len();
         let length = Self::output_size_needed(parts);
+        // All lengths, counts and offsets are stored as u16
+        if length > u16::MAX as usize {
+            return Err(InnerError::OutOfRange(length).into());
+        }
         if output.len() < length {
             return Err(InnerError::BufferTooSmall(length).into());
         }
